@@ -132,13 +132,22 @@ func (b *build) compile(out string, race bool) {
 
 func (b *build) clean() {
 	os.RemoveAll(b.dir)
-	// run directories left behind by killed workers
-	if m, _ := filepath.Glob("/dev/shm/wsim-[0-9]*-*"); len(m) > 0 {
-		for _, d := range m {
-			os.RemoveAll(d)
+	// run directories left behind by killed workers of this driver
+	pidMu.Lock()
+	defer pidMu.Unlock()
+	for _, pid := range workerPids {
+		if m, _ := filepath.Glob(fmt.Sprintf("/dev/shm/wsim-%d-*", pid)); len(m) > 0 {
+			for _, d := range m {
+				os.RemoveAll(d)
+			}
 		}
 	}
 }
+
+var (
+	pidMu      sync.Mutex
+	workerPids []int
+)
 
 type workerStats struct {
 	Runs        int               `json:"runs"`
@@ -185,6 +194,9 @@ func runEngine(bin string, timeout time.Duration, args ...string) (string, error
 	if err := cmd.Start(); err != nil {
 		return "", err, false
 	}
+	pidMu.Lock()
+	workerPids = append(workerPids, cmd.Process.Pid)
+	pidMu.Unlock()
 	done := make(chan error, 1)
 	go func() { done <- cmd.Wait() }()
 	select {
